@@ -193,7 +193,7 @@ package store
 //@ iface (repo Repo) blobGet(d digest.Digest, locked bool) (rdr io.ReadSeekCloser, err error)
 //@   modifies ghost(fault), alloc, ghost(fswrites)
 //@   ensures [fs-policy]{C14} !fsWritable() ==> fswrites() == old(fswrites())
-//@   ensures [ok] err == nil ==> rdr != nil
+//@   ensures [ok] err == nil ==> rdr != nil && rdr.of == d
 //@   ensures [err] err != nil ==> rdr == nil
 
 //@ iface (repo Repo) blobMeta(d digest.Digest, locked bool) (m blobMeta, err error)
@@ -352,12 +352,60 @@ package store
 //@ -- ------------------------------------------------------------------
 //@ -- C05, step invariants of the collector (not the closure argument, see DESIGN.md 11): every child of a walked index
 //@ -- is queued, the config and every layer of a walked image are marked, and only unmarked blobs are removed.
+//@ -- The closure argument (C05, C06).  The collector keeps the set of (digest, kind) pairs it has read and decoded in its
+//@ -- map `walked` (kind 1: index, 2: image, 0: anything else).  What a stored manifest lists is named by ghost functions
+//@ -- that are *defined* by the one decode of that (digest, kind) in this collection (a pair is decoded at most once:
+//@ -- `walked` is set before the decode), see the assume clauses at the decode calls:
+//@ --   gcClean(x, k)      blob x was read, decoded as kind k and closed without error
+//@ --   gcIdxN/gcIdxChild/gcIdxChildKind   the children an index lists (digest, kind of its media type)
+//@ --   gcImgConfig/gcImgN/gcImgLayer      config and layers an image lists
+//@ --   gcReadable(x)      blobGet succeeds for x (assumed not to change during the mark phase)
+//@ ghost func gcReadable(d digest.Digest) bool
+//@ ghost func gcClean(d digest.Digest, k int) bool
+//@ ghost func gcIdxN(d digest.Digest) int
+//@ ghost func gcIdxChild(d digest.Digest, j int) digest.Digest
+//@ ghost func gcIdxChildKind(d digest.Digest, j int) int
+//@ ghost func gcImgConfig(d digest.Digest) digest.Digest
+//@ ghost func gcImgN(d digest.Digest) int
+//@ ghost func gcImgLayer(d digest.Digest, j int) digest.Digest
+//@ pred mtKind(mt) := (mt == types.MediaTypeDocker2ManifestList || mt == types.MediaTypeOCI1ManifestList) ? 1 :
+//@        ((mt == types.MediaTypeDocker2Manifest || mt == types.MediaTypeOCI1Manifest) ? 2 : 0)
+//@ -- a (digest, kind) pair is settled when it has been walked, is still on the work list, or cannot be read at all
+//@ pred queued(W, x, k) := exists p: int :: 0 <= p && p < len(W) && W[p].Digest == x && mtKind(W[p].MediaType) == k
+//@ pred settled(wd, W, x, k) := wd[keyOf(wd, x, k)] || queued(W, x, k) || !gcReadable(x)
+
 //@ func repoGarbageCollect(repo Repo, conf config.Config, index types.Index, locked bool) (out types.Index, mod bool, err error)
 //@   requires [conf-defaulted] config.defaulted(conf)
+//@   requires [repo] repo != nil
+//@   assume [readable-is-stable] after "repo.blobGet(d.Digest, locked)": (ret1 == nil) <==> gcReadable(d#2.Digest)
+//@   assume [index-decoded-once] after "Decode(&man)"#1: ret == nil && br != nil && br.of == d#2.Digest ==> len(man.Manifests) == gcIdxN(d#2.Digest) &&
+//@             (forall k: int :: 0 <= k && k < len(man.Manifests) ==> man.Manifests[k].Digest == gcIdxChild(d#2.Digest, k) &&
+//@                mtKind(man.Manifests[k].MediaType) == gcIdxChildKind(d#2.Digest, k))
+//@   assume [image-decoded-once] after "Decode(&man)"#2: ret == nil && br != nil && br.of == d#2.Digest ==> man#2.Config.Digest == gcImgConfig(d#2.Digest) &&
+//@             len(man#2.Layers) == gcImgN(d#2.Digest) &&
+//@             (forall k: int :: 0 <= k && k < len(man#2.Layers) ==> man#2.Layers[k].Digest == gcImgLayer(d#2.Digest, k)) &&
+//@             (forall k: int :: {gcImgLayer(d#2.Digest, k)} 0 <= k && k < len(man#2.Layers) ==> man#2.Layers[k].Digest == gcImgLayer(d#2.Digest, k)) &&
+//@             arr(man#2.Layers) != arr(manifests)
+//@   assume [clean-1] after "br.Close()"#1: (err#4 == nil && ret == nil) <==> gcClean(d#2.Digest, 1)
+//@   assume [clean-2] after "br.Close()"#2: (err#4 == nil && ret == nil) <==> gcClean(d#2.Digest, 2)
+//@   assume [clean-0] after "br.Close()"#3: (ret == nil) <==> gcClean(d#2.Digest, 0)
+//@   loop 2,3,4: invariant [maps]{C05} seen != nil && walked != nil
+//@   loop 2,4: invariant [walked-is-marked]{C05} forall wk: walkKey :: walked[wk] ==> seen[wk.dig]
+//@   loop 2: invariant [image-config-marked]{C05} forall x: digest.Digest :: {gcImgConfig(x)} walked[keyOf(walked, x, 2)] && gcClean(x, 2) ==> seen[gcImgConfig(x)]
+//@   loop 2: invariant [image-layers-marked]{C05} forall x: digest.Digest, j: int :: {gcImgLayer(x, j)} walked[keyOf(walked, x, 2)] && gcClean(x, 2) && 0 <= j && j < gcImgN(x) ==> seen[gcImgLayer(x, j)]
+//@   -- while the layers of the image at hand are being marked, the two statements hold for every other image
+//@   loop 4: invariant [image-config-marked]{C05} forall x: digest.Digest :: {gcImgConfig(x)} x != d#2.Digest && walked[keyOf(walked, x, 2)] && gcClean(x, 2) ==> seen[gcImgConfig(x)]
+//@   loop 4: invariant [image-layers-marked]{C05} forall x: digest.Digest, j: int :: {gcImgLayer(x, j)} x != d#2.Digest && walked[keyOf(walked, x, 2)] && gcClean(x, 2) && 0 <= j && j < gcImgN(x) ==> seen[gcImgLayer(x, j)]
 //@   loop 3: invariant [children-queued]{C05} forall k: int :: 0 <= k && k <= rangeindex && k < len(man.Manifests) ==>
 //@             exists j: int :: 0 <= j && j < len(manifests) && manifests[j].Digest == man.Manifests[k].Digest
 //@   loop 4: invariant [layers-marked]{C05} (seen != nil) && (forall k: int :: 0 <= k && k <= rangeindex && k < len(man#2.Layers) ==> seen[man#2.Layers[k].Digest])
 //@   loop 4: invariant [config-marked]{C05} seen[man#2.Config.Digest]
+//@   -- the decoder filled a zero value: the layer list it allocated is not the work list
+//@   loop 4: invariant [layers-apart]{C05} arr(man#2.Layers) != arr(manifests)
+//@   -- ... and is still what the decode produced
+//@   loop 4: invariant [layers-named]{C05} len(man#2.Layers) == gcImgN(d#2.Digest) && man#2.Config.Digest == gcImgConfig(d#2.Digest) &&
+//@             (forall k: int :: 0 <= k && k < len(man#2.Layers) ==> man#2.Layers[k].Digest == gcImgLayer(d#2.Digest, k)) &&
+//@             (forall k: int :: {gcImgLayer(d#2.Digest, k)} 0 <= k && k < len(man#2.Layers) ==> man#2.Layers[k].Digest == gcImgLayer(d#2.Digest, k))
 //@   assert [removes-only-unmarked-blobs]{C05} before "blobDelete(d, locked)": !seen[d#3]
 //@   assert [removes-only-unmarked-entries]{C05} before call Index.RmDesc#2: !seen[d#3]
 //@   assert [removes-only-blobless-entries]{C05} before call Index.RmDesc#1: !blobExists[d#4]
